@@ -149,3 +149,25 @@ def value_slice(stmts, match, value_of, tail=None, returns=None):
     fn = ast.FunctionDef(name="slice", args=ast.arguments(posonlyargs=[], args=[], kwonlyargs=[], kw_defaults=[], defaults=[]), body=conv(stmts) + [ast.Return(value=tail if tail is not None else ast.Constant(value="<no emission>"))], decorator_list=[], lineno=0)
     ast.fix_missing_locations(fn)
     return fn
+
+
+def test_between(g, start_ids, goal_pred):
+    """First `test` node reachable from any of start_ids (normal edges only) before a node
+    satisfying goal_pred is reached; None when every such path reaches the goal untested.
+    Returns the string "unreached" when the goal is not reachable at all."""
+    seen, todo, reached = set(), [], False
+    for s_ in start_ids:
+        todo += [m for m, lab in g.succ[s_] if lab not in ("exc", "uncaught", "catch")]
+    while todo:
+        cur = todo.pop()
+        if cur in seen:
+            continue
+        seen.add(cur)
+        nd = g.node(cur)
+        if goal_pred(nd):
+            reached = True
+            continue
+        if nd.kind == "test":
+            return nd
+        todo += [m for m, lab in g.succ[cur] if lab not in ("exc", "uncaught", "catch")]
+    return None if reached else "unreached"
